@@ -195,15 +195,21 @@ def _run_ttv(case, ctx):
     kind = hd["kind"]
     seed = hd.get("vseed", 0) if "vseed" in hd else 0
     ctx.state()
-    vecs = [_vec(shape, m, seed) for m in range(N)]
+    vecs0 = [_vec(shape, m, seed) for m in range(N)]
+    # second multiplicand family: a zero component (a product that vanishes must not stay behind as a stored zero)
+    vecsz = [v.copy() for v in vecs0]
+    for v in vecsz:
+        v[len(v) - 1] = 0.0
     items = []
     for label, kw, listed, sel in designations(N):
-        for form in ("array", "list"):
+        for form in ("array", "list", "zerovec"):
             items.append((label, kw, listed, sel, form))
     items = _sel(case, "desig", items, lambda x, d: [x[0], x[1], x[4]] == d)
     for label, kw, listed, sel, form in items:
         sub = dict(case, desig=[label, kw, form])
         p = Probe(ctx, sub)
+        vecs = vecsz if form == "zerovec" else vecs0
+        form = "array" if form == "zerovec" else form
         mult = [vecs[m].copy() for m in (listed if listed is not None else range(N))]
         want = rm.ttv(A, {m: vecs[m] for m in sel})
         X = H.build(hd)
@@ -214,6 +220,7 @@ def _run_ttv(case, ctx):
         if _value_ok(p, kind + ".ttv", res, want, label) and _nontrivial(A, want):
             ctx.nontriv()
         ctx.outcome(np.asarray(want))
+    vecs = vecs0
     # single vector forms
     singles = _sel(case, "single", [(m, f) for m in range(N) for f in ("int", "array", "default_all")], lambda x, d: list(x) == d)
     for m, f in singles:
